@@ -75,7 +75,7 @@ def rand_doc(rng, depth=3):
         n = rng.choice([0, 1, 2, 2, 3, 3, 4, 6])
         if rng.random() < 0.02:
             # long arrays of scalars (sorting / searching / hashing thresholds: 20, 32, 64, 128, 256 …)
-            n = rng.choice([21, 33, 65, 129, 257, 300])
+            n = rng.choice([21, 33, 65, 129, 255, 256, 257, 300])
             kind = rng.random()
             if kind < 0.4:
                 return "[ " + " ".join("u%d" % rng.randrange(0, 50) for _ in range(n)) + " ]"
